@@ -1378,18 +1378,23 @@ impl Machine {
                         let rv = &upvalues[index as usize];
                         let vs = match &*rv.borrow() {
                             UpValue::Open(i) => {
+                                // An open upvalue lives in the value stack itself. Writing to `dst`
+                                // may grow (reallocate) the stack, so the words are moved inside
+                                // the stack instead of being passed as a slice that points into it.
                                 let upper_base = cls.base_ptr as usize;
-                                let (_range, rawv) = self.get_open_upvalue(upper_base, *i);
-                                let rawv: &[RawVal] = unsafe { std::mem::transmute(rawv) };
-                                rawv
+                                let (range, _rawv) = self.get_open_upvalue(upper_base, *i);
+                                Err(range)
                             }
                             UpValue::Closed(rawval, _) => {
                                 let rawv: &[RawVal] =
                                     unsafe { std::mem::transmute(rawval.as_slice()) };
-                                rawv
+                                Ok(rawv)
                             }
                         };
-                        self.set_stack_range(dst as i64, vs);
+                        match vs {
+                            Ok(vs) => self.set_stack_range(dst as i64, vs),
+                            Err(range) => self.move_stack_range(dst as i64, range),
+                        }
                     };
                 }
                 Instruction::SetUpValue(index, src, size) => {
